@@ -805,9 +805,10 @@ func (fx *fnExec) fieldProtoCheck(st *state, addrV ssa.Value, in ssa.Instruction
 	}
 	fname := structOf(stT).Field(fa.Field).Name()
 	// default rule: a type that declares a protocol for some of its fields is shared; a store to one of
-	// its UNDECLARED fields outside initialisation needs the object's lock (loads are free: such fields
+	// its UNDECLARED fields outside initialisation and outside the single serving goroutine (role server)
+	// needs the object's lock (loads are free: such fields
 	// are immutable after construction). One clause per type: proto:store(T.*):default.
-	if isStore && fx.ct != nil && fx.ct.Role != "init" {
+	if isStore && fx.ct != nil && fx.ct.Role != "init" && fx.ct.Role != "server" {
 		declared, typed := false, false
 		var dprops []string
 		for _, fp := range fx.g.cs.FieldProto {
